@@ -274,6 +274,11 @@ def run_C14(ctx, E):
     stage_record_trace(ctx, E, "roundtrip", "C14_Trace", "C14_Trace.cfg", heap="16g")
 
 
+def run_C16(ctx, E):
+    stage_mc_replay(ctx, E, "listings", "C16_MC", "C16_MC.cfg")
+    stage_record_trace(ctx, E, "listings", "C16_Trace", "C16_Trace.cfg", heap="16g")
+
+
 def run_C10(ctx, E):
     ctx.exhaustive = True
     for e in (("e1", "e2", "e4") if ctx.tier == "quick" else ("e1", "e2", "e3", "e4")):
@@ -291,6 +296,20 @@ _seqhash_note = ("trusted: TLC, community modules; the digest is uninterpreted i
                  "in the replayer by a from-scratch BLAKE3 transcription pinned by the official test vectors; "
                  "double-stranded inputs containing Z or (under type DNA) U are outside the strand clause and not replayed")
 PROPS = {
+    "C16": dict(run=run_C16,
+                technique="TLC evaluation of an independent REBASE format-31 writer and reader (RebaseFormat.tla) with the "
+                          "theorem Read(Lines(x)) = x; every laid-out listing replayed on rebase.Parse / Read / Export; "
+                          "recorded listings re-read by the specification's reader and judged by C16_Trace",
+                level_text="432 listings laid out by the specification's writer (0..3 records incl. empty fields and a "
+                           "record with 4 supplier letters, 0..3 suppliers, three shapes of header prose, supplier lines "
+                           "indented with 16 spaces / tab / tabs / mixed): every field verbatim, suppliers decoded through "
+                           "the listing's own table, Read through a file, Export parsed back with the published key names; "
+                           "recorded listings from the harness's writer with 0..40 (quick) / 0..300 (thorough) records, "
+                           "0..15 supplier letters, arbitrary prose are read by the specification's reader and the "
+                           "returned map and its export must equal Expected",
+                level_note="trusted: TLC, community modules; an empty isoschizomer field may be returned as an empty list "
+                           "or as one empty string",
+                rule="S->I: one case per laid-out listing; I->S: one event per generated listing"),
     "C14": dict(run=run_C14,
                 technique="TLC evaluation of an independent GFF3+FASTA writer and reader (GffFormat.tla) with the theorem "
                           "Read(Lines(x)) = x; every laid-out file replayed on gff.Parse; recorded gff.Build outputs read "
